@@ -23,6 +23,12 @@ use crate::MockFnInfo;
 //@ #[cfg_attr(kani, kani::ensures(|r: &Option<NCalls>| match r { Some(n) => matches!(self.exactness, Exactness::Exact) && n.0 == self.minimum, None => !matches!(self.exactness, Exactness::Exact) }))]
 //@end
 
+impl kani::Arbitrary for NCalls {
+    fn any() -> Self {
+        NCalls(kani::any())
+    }
+}
+
 pub(crate) fn fmt_stub(_args: core::fmt::Arguments<'_>) -> String {
     String::new()
 }
@@ -170,4 +176,30 @@ fn exact_calls_contract() {
     let e = CallCountExpectation::new(kani::any(), any_exactness().0);
     e.exact_calls();
     kani::cover!(true);
+}
+
+/// Modular twin of verify_full: the callee `lower_bound` is replaced by its VERIFIED contract (`stub_verified`), so
+/// CallCounter::verify is checked against lower_bound's contract, not its body.
+//@K props=C03 tier=quick label=full feat=std fn=CallCounter::verify[modular:lower_bound-by-contract]
+#[kani::proof]
+#[kani::stub(alloc::fmt::format, fmt_stub)]
+#[kani::stub_verified(CallCountExpectation::lower_bound)]
+fn verify_full_modular() {
+    let actual: usize = kani::any();
+    let minimum: usize = kani::any();
+    let (_, k) = any_exactness();
+    kani::assume(!(k == 2 && minimum == usize::MAX));
+    let counter = mk_counter(actual, minimum, k);
+    let info = MockFnInfo::with_type_id(core::any::TypeId::of::<Dummy>());
+    let mut errors: Vec<MockError> = Vec::with_capacity(2);
+    let r = counter.verify(
+        &info,
+        || CallPatternDebug::new(info, CallPatternLocation::PatIndex(PatIndex(0))),
+        &mut errors,
+    );
+    assert!(r.0 == actual);
+    assert!(errors.len() == if violated(actual, minimum, k) { 1 } else { 0 });
+    kani::cover!(violated(actual, minimum, k));
+    kani::cover!(!violated(actual, minimum, k));
+    core::mem::forget(errors);
 }
